@@ -62,6 +62,9 @@ func (r *Run) init() {
 }
 
 func Start(prop, tier, level string) *Run {
+	if v := os.Getenv("VERIF_ROOT"); v != "" {
+		Root = v
+	}
 	r := &Run{Prop: prop, Tier: tier, Level: level, start: time.Now()}
 	r.init()
 	if s := os.Getenv("VERIF_SEED"); s != "" {
